@@ -139,8 +139,15 @@ def gen_scripts(ctx, rng, n):
             else:
                 script.append(["run", rng.choice([0.0, 0.0, 0.1, 1.0, 2.9, 3.0, 3.1])])
         # one request per peer at most while another to the same peer is outstanding is fine (invoke ids differ)
+        iocb = rng.random() < 0.4
         out.append({"peers": peers, "silent": silent, "script": script,
-                    "a": {"max_apdu": 128, "retries": rng.choice([0, 1, 1, 3])}, "iocb": rng.random() < 0.3})
+                    "a": {"max_apdu": 128, "retries": rng.choice([0, 1, 1, 3])}, "iocb": iocb,
+                    # requests issued from inside completion callbacks (IOCB only)
+                    "chain": [rng.choice(peers) for _ in range(rng.randrange(0, 4))] if iocb else []})
+    # A completes, its callback issues B, then C goes to the same peer before B is answered
+    for silent in ([], [40]):
+        out.append({"peers": [30, 40], "silent": silent, "iocb": True, "a": {"max_apdu": 128, "retries": 1},
+                    "chain": [30, 30], "script": [["req", 30], ["run", 0.0], ["req", 30], ["req", 40], ["run", 0.0], ["req", 30]]})
     # the directed interleaving: requests submitted between housekeeping-timer operations in one instant
     out.append({"peers": [30, 40, 50], "silent": [30, 40, 50], "a": {"max_apdu": 128, "retries": 1},
                 "script": [["bg", 1000.0], ["req", 30], ["req", 40], ["bg", 1004.0], ["bg", 1005.0], ["req", 50],
@@ -191,6 +198,16 @@ def run_impl(ctx):
     scripts = gen_scripts(ctx, rng, 3200 if ctx.quick else 40000)
     core.run_shards(ctx, "harness.c04_impl", "shard_scripts",
                     [{"scripts": scripts[i::16]} for i in range(16)])
+
+
+def run_app_scripts(ctx, n_quick=1200, n_thorough=12000, label="app"):
+    """the IOCB/application-level script scenarios alone (used by C11 for the application-level clauses:
+    every request's reply reaches the request it answers, also with requests issued from callbacks)"""
+    rng = ctx.sub_rng("c04/scripts/" + label)
+    scripts = gen_scripts(ctx, rng, n_quick if ctx.quick else n_thorough)
+    scripts = [dict(sc, iocb=True, chain=sc.get("chain") or [rng.choice(sc["peers"]) for _ in range(rng.randrange(0, 4))])
+               for sc in scripts]
+    core.run_shards(ctx, "harness.c04_impl", "shard_scripts", [{"scripts": scripts[i::16]} for i in range(16)])
 
 
 def replay_impl(ctx, case):
